@@ -148,24 +148,36 @@ def step0 (σ : St) (op obs : List String) : St × List Msg :=
   | ["post", now, id, _start, _end], [s, e, u] =>
     let now := toInt! now; let id := toNat! id
     let a : GAlert := { id, starts := toInt! s, ends := toInt! e, upd := toInt! u }
+    -- mem.Alerts.Put (C13 refire_after_end_starts_anew, C06 "re-created with a fresh group_wait by the next alert"): a submission that
+    -- starts at or after the instant the stored episode ended does not overlap it and keeps its own start
+    let pStart := toInt! _start; let pEnd := toInt! _end
+    let pfRefire : List Msg := match lookup σ.provider id with
+      | some old =>
+        if old.ends ≤ pStart ∧ pStart ≤ pEnd then
+          (if a.starts = pStart then [Msg.tag (if old.ends = pStart then "post:refire-at-old-end" else "post:refire-after-old-end")]
+           else [Msg.propfail "refire_after_end_starts_anew" "merged-without-overlap"
+                   (s!"alert={id} now={now}: the stored episode [{old.starts}, {old.ends}] had ended when the submission [{pStart}, {pEnd}] starts, stored start={a.starts}" ++
+                   (if a.starts + σ.gw < now ∧ ¬ (pStart + σ.gw < now) then " (a group re-created for it is flushed at once instead of after group_wait)" else ""))])
+        else []
+      | none => []
     let σ := { σ with provider := put σ.provider id a }
     let g := groupOf id
     match getG σ g with
     | some gs =>
       match insert gs.g a with
       | some g' => (setG σ g { gs with g := g' }, [.tag (if gs.inflight.isSome then "post:during-flush" else "post:existing")]
-                      ++ (if a.resolvedAt now then [.tag "post:resolved"] else []))
-      | none => (setG σ g { g := create now σ.gw a, created := now }, [.tag "post:recreate"])
+                      ++ (if a.resolvedAt now then [.tag "post:resolved"] else []) ++ pfRefire)
+      | none => (setG σ g { g := create now σ.gw a, created := now }, [.tag "post:recreate"] ++ pfRefire)
     | none =>
       -- groupAlert: the counter follows the map (live groups + destroyed ones not yet collected); a destroyed
       -- group still mapped is replaced in place (CompareAndSwap) without touching the counter
       let (gm', admitted) := gstep σ.limit σ.gm (.ingest g)
       if !admitted then
-        ({ σ with limitedAt := (id, now) :: σ.limitedAt }, [.tag "post:limited"])
+        ({ σ with limitedAt := (id, now) :: σ.limitedAt }, [.tag "post:limited"] ++ pfRefire)
       else
         let σ' := { σ with gm := gm' }
         (setG σ' g { g := create now σ.gw a, created := now },
-          [.tag (if σ.gm.dead.contains g then "post:recreate-cas" else if a.starts + σ.gw < now then "post:create-old" else "post:create")])
+          [.tag (if σ.gm.dead.contains g then "post:recreate-cas" else if a.starts + σ.gw < now then "post:create-old" else "post:create")] ++ pfRefire)
   | ["post", _, _, _, _], ["notstored"] => (σ, [.diff "post" "stored" "notstored"])
   | ["adv", _], _ => (σ, [])
   | ["sil", now, id, dur], ["ok"] =>
